@@ -269,8 +269,71 @@ def label(rng, special=True):
     return " ".join(words)
 
 
+def overlay(base, top, x, y):
+    """the non-blank characters of `top` written over `base` at column x, row y"""
+    rows = base.split("\n")
+    trows = top.split("\n")
+    while len(rows) < y + len(trows):
+        rows.append("")
+    for j, tr in enumerate(trows):
+        row = list(rows[y + j].ljust(x + len(tr)))
+        for i, ch in enumerate(tr):
+            if ch != " ":
+                row[x + i] = ch
+        rows[y + j] = "".join(row).rstrip()
+    return "\n".join(rows)
+
+
+def circle_pair(rng):
+    """two catalogue circles in one group of cells: a small one written over / next to a corner or an edge of a bigger
+    one (several catalogue drawings then match the same span)"""
+    cat = circle_catalogue()
+    big = rng.choice(cat[2:12])[0]
+    small = rng.choice(cat[:4])[0]
+    rows = big.split("\n")
+    w = max(len(r) for r in rows)
+    spot = rng.below(5)
+    if spot == 0:
+        return overlay(place(big, 0, 0), small, 0, 0)
+    if spot == 1:
+        return overlay(big, small, w, 0)
+    if spot == 2:
+        return overlay(big, small, 0, len(rows))
+    if spot == 3:
+        return overlay(big, small, rng.below(w + 2), rng.below(len(rows) + 1))
+    return side_by_side(small, big, 0)
+
+
+def tagged_slope(rng, tags=True):
+    """a sloped line (optionally with a bullet at its lower end) whose bounding box holds a `{tag}` or a label"""
+    n = rng.range(3, 6)
+    tag = rng.choice(["{a}", "{b1}", "{a,w}", "ab"]) if tags else "ab"
+    end = rng.choice(["", "*", "o", "O"])
+    if rng.chance(1, 2):       # falling to the right: the tag sits right of an upper row, inside the extent of the line
+        rows = [" " * i + "\\" for i in range(n)]
+        k = rng.range(0, n - 2)
+        rows[k] = rows[k] + " " + tag
+        if end:
+            rows.append(" " * n + end)
+    else:                       # falling to the left: the tag sits left of a lower row
+        rows = [" " * (n - 1 - i) + "/" for i in range(n)]
+        k = rng.range(0, n - 1)
+        lead = n - 1 - k
+        if lead >= len(tag) + 1:
+            rows[k] = tag.ljust(lead) + "/"
+        else:
+            rows[0] = rows[0] + " " + tag
+        if end:
+            rows = [" " + r for r in rows] + [end]
+    return "\n".join(rows)
+
+
 def zoo_piece(rng, quotes=True, tags=True, special=True):
-    k = rng.below(15)
+    k = rng.below(17)
+    if k == 15:
+        return circle_pair(rng)
+    if k == 16:
+        return tagged_slope(rng, tags)
     if k == 13:
         return comb(rng)
     if k == 14:
@@ -438,3 +501,145 @@ def bus(k, step=4):
     rows.append("| " + "".join("|".ljust(step) for i in range(k)))
     rows.append("+-" + "".join(("+" + "-" * (step - 1)) for i in range(k)))
     return "\n".join(r.rstrip() for r in rows)
+
+
+# ---------------------------------------------------------------------------------------------------------------------
+# extremes: drawings at the ends of the size axes. A change that holds up to a threshold (a look-back window, a pass cap, a
+# fixed-size buffer, a narrower integer type, a float tolerance, a key truncated to a byte) is invisible on ordinary
+# drawings; each family here pushes one axis past the usual powers of two.
+
+TH = [31, 32, 33, 63, 64, 65, 66, 70, 127, 128, 129, 130, 255, 256, 257, 300, 513]
+FAR = [32766, 32767, 32768, 32769, 65535, 65536, 150000, 300001]
+# label characters (no drawing meaning) whose code point truncated to 8 or 16 bits is a blank or a drawing character
+ALIAS = "∠ĭżīįŜşĪůĢŻħĩĺľ\U0001002d\U0001007c\U00010020\U0001002b"
+
+
+def many_groups(rng, n=None):
+    """`n` separate small groups on one row (or two), optionally right of a small connected piece"""
+    n = n or rng.choice(TH)
+    unit = rng.choice(["a", "+", "o", "()", "[]", "*", "-", "|", "_", "ab", "一", "<>"])
+    row = " ".join(unit for _ in range(n))
+    rows = [row]
+    if rng.chance(1, 2):
+        rows.append(" ".join(rng.choice(["b", "+", "x"]) for _ in range(n)))
+        if rng.chance(1, 2):
+            rows.insert(1, "")
+    left = rng.choice([None, "|\n|", "+--+\n|  |\n+--+", "*-->", "/\n\\"])
+    art = "\n".join(rows)
+    if left:
+        art = side_by_side(left, art, rng.choice([1, 2]))
+    return art
+
+
+def staircase(rng, n=None):
+    """an ascending or descending bar chart of `n` bars on a common base, or a comb with `n` teeth"""
+    n = n or rng.choice([17, 33, 64, 65, 66, 70, 80])
+    kind = rng.below(3)
+    rows = []
+    if kind == 2:      # comb: equal teeth
+        h = rng.range(1, 3)
+        for _ in range(h):
+            rows.append("".join("| " for _ in range(n)))
+        rows.append("+" + "-+" * (n - 1))
+        return "\n".join(rows)
+    for r in range(n):
+        row = ""
+        for c in range(n):
+            tall = (c + 1) if kind == 0 else (n - c)
+            row += "| " if (n - r) <= tall else "  "
+        rows.append(row.rstrip())
+    rows.append("|_" * n if rng.chance(1, 2) else "+-" * n)
+    return "\n".join(rows)
+
+
+def long_things(rng, n=None):
+    n = n or rng.choice(TH)
+    k = rng.below(8)
+    if k == 0:      # a long quoted label followed by more drawing on the same row
+        body = rng.choice(["x", "ab ", "一", "a-|+", "é"])
+        q = (body * n)[:n]
+        after = rng.choice([" |", " +--+", "-->", " a", "|"])
+        rows = ['"' + q + '"' + after]
+        if after == " +--+":
+            w = len('"' + q + '"') + 1
+            if "一" in q:
+                w = dispw('"' + q + '"') + 1
+            rows = [" " * w + "+--+", '"' + q + '" |  |', " " * w + "+--+"]
+        return "\n".join(rows)
+    if k == 1:      # a long label next to a stroke
+        return rng.choice(["|", "+-", ""]) + ("".join(rng.choice("abc xyz") for _ in range(n))) + rng.choice(["|", "-+", ""])
+    if k == 2:      # a long run in one of the four directions
+        d = rng.below(4)
+        ch = rng.choice("-=~_") if d == 0 else rng.choice("|:!") if d == 1 else "/" if d == 2 else "\\"
+        if d == 0:
+            return rng.choice(["", "*", "<", "+"]) + ch * n + rng.choice(["", "*", ">", "+"])
+        if d == 1:
+            return "\n".join([rng.choice(["^", "|", "+"])] + [ch] * n + [rng.choice(["v", "|", "+"])])
+        if d == 2:
+            return "\n".join(" " * (n - 1 - i) + ch for i in range(n))
+        return "\n".join(" " * i + ch for i in range(n))
+    if k == 3:      # a wide or tall box with content
+        if rng.chance(1, 2):
+            return box(n, rng.range(1, 3), corners=rng.choice(["++++", "..''"]), inner=[" " + label(rng)])
+        return box(rng.range(2, 6), n, corners=rng.choice(["++++", "..''"]), inner=[" a"])
+    if k == 4:      # a tag list / many tags
+        tags = ",".join("t%d" % i for i in range(min(n, 140)))
+        return box(len(tags) + 4, 1, inner=[" {" + tags + "}"])
+    if k == 5:      # a legend with many entries
+        m = min(n, 140)
+        return "+----+\n|{c%d}|\n+----+\n# Legend:\n" % (m - 1) + "\n".join("c%d = {fill:#%03x}" % (i, i) for i in range(m)) + "\n"
+    if k == 6:      # many rows, one small group each
+        return "\n".join(rng.choice(["a", "+", "-", "o", "ab c", ""]) for _ in range(n))
+    # many short quoted labels on one row
+    return " ".join('"q%d"' % i for i in range(min(n, 90))) + " |"
+
+
+def far_away(rng, piece=None):
+    """a small drawing placed tens or hundreds of thousands of cells away from the origin"""
+    piece = piece or rng.choice(["+--+\n|  |\n+--+", ".--.\n|  |\n'--'", "*-->", "(_)", "-+--+-\n |  |\n-+--+-", "a\n|\n+-b",
+                                 "|  |\n+--+\n|  |\n+--+\n|  |", "/\n\\", '"q" |', "{a}\n# Legend:\na = {fill:red}"])
+    k = rng.choice(FAR) + rng.choice([-3, -1, 0, 0, 1, 2])
+    if rng.chance(1, 2):
+        return place(piece.split("# Legend:")[0], k, rng.below(3)) + ("# Legend:" + piece.split("# Legend:")[1] if "# Legend:" in piece else "")
+    return "\n" * k + piece
+
+
+def deep_nesting(rng):
+    depth = rng.range(5, 10)
+    lv = [[rng.choice(["", "a", "{a}", '"q"'])] for _ in range(depth)]
+    return nested_boxes(lv, corners=rng.choice(["++++", "..''"])) + rng.choice(["", "\n# Legend:\na = {fill:red}\n"])
+
+
+def alias_labels(rng):
+    """label characters whose truncated code point is a blank or a drawing character, next to strokes"""
+    a = rng.choice(ALIAS)
+    k = rng.below(6)
+    if k == 0:
+        return a + "|\n |"
+    if k == 1:
+        return " " + a + "\n+"
+    if k == 2:
+        return "a\n|" + a + "\n|\nb"
+    if k == 3:
+        return "x " + a + "+" + a + " y\n" + a * 3
+    if k == 4:
+        return random_grid(rng, rng.range(2, 6), rng.range(2, 4), "-|+ " + a + a, 80)
+    return box(4, 2, inner=[" " + a + a]) + "\n" + a + "-" + a + "|" + a
+
+
+def extremes(rng):
+    k = rng.below(12)
+    if k <= 1:
+        return many_groups(rng)
+    if k == 2:
+        return staircase(rng)
+    if k <= 5:
+        return long_things(rng)
+    if k <= 7:
+        return far_away(rng)
+    if k == 8:
+        return deep_nesting(rng)
+    if k <= 10:
+        return alias_labels(rng)
+    # an ordinary composed drawing pushed far away
+    return far_away(rng, zoo(rng, legend=False, special=False))
